@@ -204,7 +204,7 @@ def run(chk, ctx):
     missing = {'protocol', 'heartbeat', 'method', 'header', 'body'} - \
         seen_kinds
     chk.ob('C06.K', 'all five kinds', not missing,
-           'successful returns exist for %s' % sorted(seen_kinds),
+           'successful returns exist for %s' % sorted(str(k_) for k_ in seen_kinds),
            detail={'missing': sorted(missing)})
     chk.floor('C06.N', 6, 'successful returns')
     chk.assume('C01.I shows for all 64 classes that the method object is an '
